@@ -181,3 +181,72 @@ Definition show_read_array (w : bytes) : bytes :=
   | Some (l, rest) =>
       flat_map (fun o => match o with Tok s => x54 :: hexs s ++ [x20] | Str s => x53 :: hexs s ++ [x20] end) l ++ x7c :: hexs rest
   end.
+
+(* ---- objects of strings: the tight writers (tightObject / tightSortObject: key, colon, value, one
+   blank; the last blank overwritten by the brace; the member order is the caller's) and the reader *)
+Fixpoint sen_members (html : bool) (ms : list (bytes * bytes)) : bytes :=
+  match ms with
+  | [] => []
+  | [(k, v)] => sen_string html k ++ x3a :: sen_string html v
+  | (k, v) :: r => sen_string html k ++ x3a :: sen_string html v ++ x20 :: sen_members html r
+  end.
+Definition sen_object (html : bool) (ms : list (bytes * bytes)) : bytes :=
+  match ms with [] => [x7b; x7d] | _ => x7b :: sen_members html ms ++ [x7d] end.
+
+Definition rout_bytes (o : rout) : bytes := match o with Tok s => s | Str s => s end.
+
+Fixpoint skip_colon_ws (w : bytes) : bytes :=
+  match w with
+  | b :: r => if act_is (SenMaps.tab_colonMap b) SenMaps.A_skipChar then skip_colon_ws r else w
+  | [] => []
+  end.
+(* after a key: a token key ends at the colon itself; a quoted key is followed by colonMap *)
+Definition after_key (o : rout) (w : bytes) : option bytes :=
+  match o with
+  | Tok _ => match w with
+             | c :: r => if act_is (SenMaps.tab_tokenMap c) SenMaps.A_tokenColon then Some r else None
+             | [] => None
+             end
+  | Str _ => match skip_colon_ws w with
+             | c :: r => if act_is (SenMaps.tab_colonMap c) SenMaps.A_colonColon then Some r else None
+             | [] => None
+             end
+  end.
+Fixpoint read_members (fuel : nat) (w : bytes) : option (list (bytes * rout) * bytes) :=
+  match fuel with
+  | O => None
+  | S f =>
+      match skip_ws w with
+      | [] => None
+      | b :: r =>
+          if act_is (SenMaps.tab_valueMap b) SenMaps.A_closeObject then Some ([], r)
+          else match rrun rinit (b :: r) with
+               | Some (ko, r2) =>
+                   match after_key ko r2 with
+                   | Some r3 =>
+                       match rrun rinit r3 with
+                       | Some (vo, r4) =>
+                           match read_members f r4 with
+                           | Some (l, k) => Some ((rout_bytes ko, vo) :: l, k)
+                           | None => None
+                           end
+                       | None => None
+                       end
+                   | None => None
+                   end
+               | None => None
+               end
+      end
+  end.
+Definition read_object (w : bytes) : option (list (bytes * rout) * bytes) :=
+  match w with
+  | b :: r => if act_is (SenMaps.tab_valueMap b) SenMaps.A_openObject then read_members (S (length r)) r else None
+  | [] => None
+  end.
+Definition show_read_object (w : bytes) : bytes :=
+  match read_object w with
+  | None => [x2d]
+  | Some (l, rest) =>
+      flat_map (fun kv => x4b :: hexs (fst kv) ++ x20 :: (match snd kv with Tok s => x54 :: hexs s | Str s => x53 :: hexs s end) ++ [x20]) l
+      ++ x7c :: hexs rest
+  end.
